@@ -166,6 +166,25 @@ func (g *storeGenState) batch(target string, max int) []sPoint {
 		q.Time = g.freshTime(target, q.Type, q.Key)
 		ps = append(ps, p, q)
 	}
+	if !g.ties && g.r.Intn(8) == 0 {
+		// (newest-wins scripts only: the propagation clause of the hash statement is about changes whose checksum
+		// delta is not zero)
+		// two identities whose type and key concatenate to the same string, with the same instant, text and value:
+		// their checksums are equal and cancel in every hash; both are points all the same
+		s := storeCollide[g.r.Intn(len(storeCollide))]
+		i := 1 + g.r.Intn(len(s)-2)
+		j := i + 1 + g.r.Intn(len(s)-1-i)
+		if s[i:] != "0" && s[j:] != "0" {
+			p := g.dataPoint(target)
+			p.Type, p.Key, p.Time = s[:i], s[i:], g.tick()
+			q := p
+			q.Type, q.Key = s[:j], s[j:]
+			if g.r.Intn(2) == 0 {
+				return []sPoint{p, q} // a batch of nothing else: the sum of its checksums is zero
+			}
+			ps = append(ps, p, q)
+		}
+	}
 	if g.r.Intn(10) == 0 {
 		// the first and the last instant the time column can hold are ordinary times
 		p := g.dataPoint(target)
@@ -178,6 +197,10 @@ func (g *storeGenState) batch(target string, max int) []sPoint {
 }
 
 func (g *storeGenState) add(kind string, op sOp) {
+	if g.r.Intn(15) == 0 {
+		op.MaintAfter = true
+		g.kinds["maintenance-run-after"]++
+	}
 	g.ops = append(g.ops, op)
 	g.kinds[kind]++
 }
@@ -311,7 +334,7 @@ func (g *storeGenState) refused() {
 			}
 		}
 	case 2: // tombstone aimed at the root
-		g.add("refused-root-tombstone", sOp{Kind: "ep", Node: storeRootID, Parent: "root", Points: []sPoint{g.tombPoint(1)}})
+		g.add("refused-root-tombstone", sOp{Kind: "ep", Node: storeRootID, Parent: "root", Points: []sPoint{g.tombPoint([]float64{1, 1, 2, 3, 0.5, 1e300, 5e-324}[g.r.Intn(7)])}}) // any value above zero deletes
 	case 3: // first edge without a node type
 		n := g.pickNode()
 		id := fmt.Sprintf("x%d", len(g.ops))
@@ -324,7 +347,7 @@ func (g *storeGenState) refused() {
 			// afterwards the real root must still be the root: it is listed as such and its tombstone is still refused
 			g.add("refused-no-type-below-root", sOp{Kind: "ep", Node: id, Parent: "root", Points: pts})
 			if g.r.Intn(2) == 0 {
-				g.add("refused-root-tombstone", sOp{Kind: "ep", Node: storeRootID, Parent: "root", Points: []sPoint{g.tombPoint(1)}})
+				g.add("refused-root-tombstone", sOp{Kind: "ep", Node: storeRootID, Parent: "root", Points: []sPoint{g.tombPoint([]float64{1, 1, 2, 3, 0.5, 1e300, 5e-324}[g.r.Intn(7)])}}) // any value above zero deletes
 			}
 			return
 		}
